@@ -34,6 +34,7 @@ let op_text (o : op) : string =
         (join " " (function PIdx a -> p "i %d" (i a) | PRange (a, b) -> p "r %d %d" (i a) (i b) | PAll -> "a") args)
   | OReindexed a -> p "reindexed %d" (i a)
   | OBlocked (a, b) -> p "blocked %d %d" (i a) (i b)
+  | OReindexedL l -> p "reindexedl %s" (join " " (fun x -> string_of_int (i x)) l)
 
 let op_kind (o : op) : string =
   match o with
@@ -41,7 +42,7 @@ let op_kind (o : op) : string =
   | ODropped _ -> "dropped" | OTaked _ -> "taked" | ORotated -> "rotated" | OUnrotated -> "unrotated"
   | OTransposed -> "transposed" | OReversed -> "reversed" | ODiagonal -> "diagonal"
   | OPartitioned _ -> "partitioned" | OChunked _ -> "chunked" | OHalved -> "halved" | OFlatted -> "flatted"
-  | OParen _ -> "paren" | OReindexed _ -> "reindexed" | OBlocked _ -> "blocked"
+  | OParen _ -> "paren" | OReindexed _ -> "reindexed" | OBlocked _ -> "blocked" | OReindexedL _ -> "reindexedl"
 
 let parse_op (toks : string list) : op =
   let n s = z (int_of_string s) in
@@ -69,6 +70,9 @@ let parse_op (toks : string list) : op =
         | "a" :: t -> PAll :: go t
         | _ -> failwith "bad paren" in
       OParen (go rest)
+  | [ "reindexed"; a ] -> OReindexed (n a)
+  | [ "blocked"; a; b ] -> OBlocked (n a, n b)
+  | "reindexedl" :: rest -> OReindexedL (List.map n rest)
   | _ -> failwith ("bad op: " ^ String.concat " " toks)
 
 let words s = List.filter (fun w -> w <> "") (String.split_on_char ' ' (String.trim s))
@@ -109,6 +113,9 @@ type st = {
   mutable probes : int list list;   (* probes since the last op/proj, oldest first *)
   mem : mem;
   mutable tptr_sliced : bool;  (* sliced()/diagonal() of D>1 transform_ptr views compile in the harness *)
+  mutable tptr_citer : bool;   (* begin()/end() of a const rank-1 transform_ptr view compile *)
+  mutable expl_view : bool;    (* array<explicit-only T2>(view) compiles *)
+  mutable nwalk : int;
 }
 
 let esz_of = function 'S' | 'Z' | 'C' | 'R' -> 16 | 'Q' | 'D' | 'L' -> 8 | 'I' -> 4 | _ -> 0
@@ -203,14 +210,15 @@ let proj_table (s : st) (kind : string) (args : int list) : (pstep list * char *
     | _ -> None
 
 (* runs the model steps of a projection; None when some step is outside its domain *)
-let run_psteps (x : pview) (steps : pstep list) : pview option =
+let kind_is_c (kind : string) : bool = String.length kind > 2 && kind.[0] = 'c' && kind.[1] = '_'
+let run_psteps ?(constref = false) (x : pview) (steps : pstep list) : pview option =
   List.fold_left
     (fun acc stp ->
       match acc with
       | None -> None
       | Some x -> (
           match stp with
-          | Pj p -> if p_dom_proj p x then Some (p_exec_proj p x) else None
+          | Pj p -> if p_dom_proj p x && p_dom_proj_based constref p x then Some (p_exec_proj p x) else None
           | Po o -> if p_dom_op o x then Some (p_exec_op o x) else None))
     (Some x) steps
 
@@ -223,24 +231,307 @@ let op_supported (s : st) (o : op) : bool =
   | OStrided _ | ORotated | OUnrotated | ODropped _ | OReversed -> true
   | OTransposed -> r >= 2
   | OSliced _ -> can_slice
-  | ODiagonal -> r >= 2 && can_slice
+  | ODiagonal -> r >= 2 && can_slice && diag_ok s.x.p_view
   | OTaked _ -> s.full && r = 1
   | OSlicedS _ | OPartitioned _ | OChunked _ | OHalved -> s.full
   | OFlatted -> s.full && r >= 2
   | OParen args -> s.full && List.length args <= 3
-  | OReindexed _ | OBlocked _ -> false
+  | OReindexed _ -> true
+  | OBlocked _ -> can_slice
+  | OReindexedL l -> List.length l >= 2 && List.length l <= min r 4
+  (* diagonal() takes its block from index 0 (known finding KF-C19-diagonal-rebased): only with zero bases *)
+
+let pr (b : Buffer.t) (str : string) = Buffer.add_string b str; Buffer.add_char b '\n'
+
+(* ---------- what an expression designates, as the harness prints it (c12_projview.hpp: elem_text / view_text) ---------- *)
+(* element whose source element starts at byte base_off (the address of the element itself for raw pointers) *)
+let elem_text (s : st) (base_off : int) : string =
+  match s.tk with
+  | TVal -> "-/" ^ value_text s 'L' base_off
+  | _ -> let off = base_off + obs_off s in Printf.sprintf "%d/%s" off (value_text s s.elem off)
+
+(* a projected view y of rank r (r = 0: an element): extensions and both corner elements *)
+let thing_text (s : st) (y : pview) : string =
+  let exts = List.map (fun (a, b) -> (i a, i b)) (l_extensions y.p_view.lay) in
+  if exts = [] then elem_text s (i (p_ptr y))
+  else begin
+    let xs = "x=" ^ String.concat "," (List.map (fun (a, b) -> Printf.sprintf "%d:%d" a b) exts) in
+    if List.exists (fun (a, b) -> a >= b) exts then xs ^ ";empty"
+    else
+      let lo = List.map fst exts and hi = List.map (fun (_, b) -> b - 1) exts in
+      Printf.sprintf "%s;%s;%s" xs (elem_text s (i (p_addr_brackets y (zl lo)))) (elem_text s (i (p_addr_brackets y (zl hi))))
+  end
+
+(* the q-th index tuple in canonical order (last index fastest), computed here (not by the model's from_linear) *)
+let canonical (exts : (int * int) list) (q : int) : int list =
+  let rec go l q = match l with
+    | [] -> ([], q)
+    | (f, l') :: rest -> let (t, q) = go rest q in let sz = l' - f in ((f + (q mod sz)) :: t, q / sz) in
+  fst (go exts q)
+
+(* ---------- iterator walks ---------- *)
+exception Walk_out of string
+
+(* generic interpreter of the walk tokens over an iterator type *)
+let run_walk_tokens (s : st) (obs : Buffer.t) (wn : int) (toks : string list) (from_end : bool) (n : int)
+    ~(b : 'it) ~(e : 'it) ~(inc : 'it -> 'it) ~(dec : 'it -> 'it) ~(add : 'it -> int -> 'it) ~(sub : 'it -> int -> 'it)
+    ~(diff : 'it -> 'it -> int) ~(deref : 'it -> string) ~(index : 'it -> int -> string)
+    ~(at : int -> string) : unit =
+  let it = ref (if from_end then e else b) and p = ref (if from_end then n else 0) and j = ref 0 in
+  let head tok = Printf.sprintf "I %s %d %d.%d %s" s.id s.stp wn !j tok in
+  let moved tok =
+    if !p < 0 || !p > n then raise (Walk_out "walk leaves [begin, end]");
+    let l = Printf.sprintf "%s pos=%d end=%d p=%d" (head tok) (diff !it b) (diff e !it) !p in
+    pr obs (if !p < n then Printf.sprintf "%s d=%s m=%s" l (deref !it) (at !p) else l) in
+  let inside q = if q < 0 || q >= n then raise (Walk_out "walk observes outside [begin, end)") in
+  moved (if from_end then "e" else "b");
+  let rec go = function
+    | [] -> ()
+    | "++" :: t -> incr j; it := inc !it; incr p; moved "++"; go t
+    | "--" :: t -> incr j; it := dec !it; decr p; moved "--"; go t
+    | "p++" :: t -> incr j; it := inc !it; incr p; moved "p++"; go t
+    | "p--" :: t -> incr j; it := dec !it; decr p; moved "p--"; go t
+    | ("+=" | "+" as tok) :: a :: t -> incr j; let a = int_of_string a in it := add !it a; p := !p + a; moved (tok ^ string_of_int a); go t
+    | ("-=" | "-" as tok) :: a :: t -> incr j; let a = int_of_string a in it := sub !it a; p := !p - a; moved (tok ^ string_of_int a); go t
+    | "[]" :: a :: t ->
+        incr j; let a = int_of_string a in inside (!p + a);
+        pr obs (Printf.sprintf "%s at=%d d=%s m=%s" (head ("[]" ^ string_of_int a)) (!p + a) (index !it a) (at (!p + a))); go t
+    | "r" :: t ->
+        incr j; inside (!p - 1);
+        pr obs (Printf.sprintf "%s at=%d d=%s m=%s" (head "r") (!p - 1) (deref (dec !it)) (at (!p - 1))); go t
+    | ("r+" | "r[]" as tok) :: a :: t ->
+        incr j; let a = int_of_string a in inside (!p - 1 - a);
+        pr obs (Printf.sprintf "%s at=%d d=%s m=%s" (head (tok ^ string_of_int a)) (!p - 1 - a) (deref (dec (sub !it a))) (at (!p - 1 - a))); go t
+    | tok :: _ -> raise (Walk_out ("walk token " ^ tok)) in
+  go toks
+
+let walk_lead (s : st) (obs : Buffer.t) (wn : int) (x : pview) (toks : string list) : unit =
+  match toks with
+  | [] -> raise (Walk_out "walk start")
+  | start :: rest ->
+      let r = rank x.p_view in
+      let cst = (start = "cb" || start = "ce") in
+      if not (List.mem start [ "b"; "e"; "cb"; "ce" ]) then raise (Walk_out ("walk start " ^ start));
+      if cst && s.tk <> TNone && r = 1 && not s.tptr_citer then raise (Walk_out "const iterators of a rank-1 transform_ptr view");
+      let n = i (v_size x.p_view) and f = i (fst (v_extension x.p_view)) in
+      run_walk_tokens s obs wn rest (start = "e" || start = "ce") n
+        ~b:(p_it_begin x) ~e:(p_it_end x) ~inc:it_inc ~dec:it_dec
+        ~add:(fun a k -> it_add a (z k)) ~sub:(fun a k -> it_sub a (z k))
+        ~diff:(fun a c -> i (it_diff a c))
+        ~deref:(fun a -> thing_text s (p_it_deref x a))
+        ~index:(fun a k -> thing_text s (p_it_index x a (z k)))
+        ~at:(fun q -> thing_text s (p_index (z (f + q)) x))
+
+let walk_flat (s : st) (obs : Buffer.t) (wn : int) (x : pview) (toks : string list) : unit =
+  match toks with
+  | [] -> raise (Walk_out "walk start")
+  | start :: rest ->
+      if not (List.mem start [ "b"; "e"; "cb"; "ce" ]) then raise (Walk_out ("walk start " ^ start));
+      let n = i (l_num_elements x.p_view.lay) in
+      let exts = List.map (fun (a, b) -> (i a, i b)) (l_extensions x.p_view.lay) in
+      run_walk_tokens s obs wn rest (start = "e" || start = "ce") n
+        ~b:(p_e_begin x) ~e:(p_e_end x) ~inc:e_inc ~dec:e_dec
+        ~add:(fun a k -> e_add a (z k)) ~sub:(fun a k -> e_sub a (z k))
+        ~diff:(fun a c -> i (e_diff a c))
+        ~deref:(fun a -> elem_text s (i (p_e_deref x a)))
+        ~index:(fun a k -> elem_text s (i (p_e_index x a (z k))))
+        ~at:(fun q -> elem_text s (i (p_addr_brackets x (zl (canonical exts q)))))
+
+(* the element pointer base() as a cursor over the source elements that follow it in the root array *)
+let ptr_unit (s : st) : int = if s.tk <> TNone then 16 else esz_of s.elem
+let ptr_room (s : st) (x : pview) : int =
+  let ptr = i (p_ptr x) and u = ptr_unit s in
+  if ptr < 0 || ptr mod 4 <> 0 then 0 else max 0 (((16 * s.mem.nel) - ptr) / u)
+let walk_ptr (s : st) (obs : Buffer.t) (wn : int) (x : pview) (toks : string list) : unit =
+  match toks with
+  | n :: start :: rest ->
+      let n = int_of_string n in
+      if n < 0 || n > ptr_room s x || not (List.mem start [ "b"; "e" ]) then raise (Walk_out "pointer walk leaves the root array");
+      List.iter (fun t -> if List.mem t [ "++"; "--"; "p++"; "p--"; "r"; "r+"; "r[]" ] then raise (Walk_out "pointer walk token")) rest;
+      let ptr = i (p_ptr x) and u = ptr_unit s in
+      let txt q = elem_text s (ptr + (u * q)) in
+      run_walk_tokens s obs wn rest (start = "e") n
+        ~b:0 ~e:n ~inc:(fun a -> a + 1) ~dec:(fun a -> a - 1) ~add:(fun a k -> a + k) ~sub:(fun a k -> a - k)
+        ~diff:(fun a c -> a - c) ~deref:txt ~index:(fun a k -> txt (a + k)) ~at:txt
+  | _ -> raise (Walk_out "pointer walk")
+
+let run_walk (s : st) (obs : Buffer.t) (toks : string list) : unit =
+  s.nwalk <- s.nwalk + 1;
+  let wn = s.nwalk in
+  let buf = Buffer.create 256 in
+  (try
+     (match toks with
+      | "lead" :: rest -> walk_lead s buf wn s.x rest
+      | "flat" :: rest -> walk_flat s buf wn s.x rest
+      | "ptr" :: rest -> walk_ptr s buf wn s.x rest
+      | "row" :: k :: rest ->
+          let k = int_of_string k in
+          if rank s.x.p_view < 2 || not (p_dom_op (OIndex (z k)) s.x) then raise (Walk_out "row walk");
+          walk_lead s buf wn (p_index (z k) s.x) rest
+      | _ -> raise (Walk_out "walk where"));
+     Buffer.add_buffer obs buf
+   with Walk_out why | Failure why ->
+     pr obs (Printf.sprintf "X %s %d out-of-domain walk: %s" s.id s.stp why);
+     s.dead <- true)
+
+(* ---------- conversions (array.hpp) ---------- *)
+let split_kind (kind : string) : (char * char * string * string) option =
+  match String.split_on_char '.' kind with
+  | [ sc; how; tgt ] when String.length sc = 2 -> Some (sc.[0], sc.[1], how, tgt)
+  | _ -> None
+
+let conv_maxd = 3   (* C12_CONV_MAXD of the harness *)
+
+(* (implicitly convertible, assignable, same type) of the target for a source element code *)
+let target_props (src : char) (tgt : string) : (bool * bool * bool) option =
+  match tgt with
+  | "same" -> Some (true, true, true)
+  | "nat" -> (match src with 'I' | 'L' | 'D' -> Some (true, true, false) | 'Z' -> Some (false, true, false) | _ -> Some (true, true, true))
+  | "wi" -> Some (true, true, false)
+  | "we" -> Some (false, false, false)
+  | "wa" -> Some (false, true, false)
+  | _ -> None
+
+(* which conversion kinds the harness can express for the current view (mirrors PH::convert / convert_to) *)
+let conv_ok (s : st) (kind : string) : bool =
+  match split_kind kind with
+  | None -> false
+  | Some (src, cat, how, tgt) -> (
+      let r = rank s.x.p_view in
+      let code = if s.tk = TVal then 'L' else s.elem in
+      let nel = i (l_num_elements s.x.p_view.lay) and size = i (v_size s.x.p_view) in
+      match target_props code tgt with
+      | None -> false
+      | Some (impl, asg, same) ->
+          (List.mem tgt [ "same"; "nat" ] || r <= conv_maxd)
+          && (List.mem cat [ 'l'; 'c'; 'r'; 't' ] || (cat = 'k' && (src = 'v' || src = 'q')))
+          && (match src with
+              | 'v' | 'q' ->
+                  let expl_view = s.expl_view && r >= 2 in
+                  (impl || asg || expl_view)
+                  && (match how with
+                      | "ctor" -> true
+                      | "alloc" -> asg || expl_view
+                      | "asame" | "aresh" | "adiff" | "from" -> asg
+                      | "asrg" -> asg && nel > 0 && size > 0 && (src = 'q' || s.tk = TNone || s.tptr_citer)
+                      | "ssame" -> asg && nel > 0
+                      | _ -> false)
+              | 'a' | 'r' ->
+                  (not same)
+                  && (match how with
+                      | "ctor" -> true
+                      | "alloc" -> cat = 'c'
+                      | "asame" | "aresh" | "adiff" | "from" -> asg
+                      | "ssame" -> asg && nel > 0
+                      | _ -> false)
+              | 's' -> (not same) && asg && how = "ssame" && cat <> 't' && nel > 0
+              | 'i' ->
+                  nel > 0 && size > 0 && cat = 'l'
+                  && (match how with "ctor" | "alloc" -> true | "asit" | "adiff" -> asg | _ -> false)
+              | 'e' -> nel > 0 && how = "ctor" && cat = 'l'
+              | 'x' ->
+                  r = 1 && size >= 3
+                  && (match how with
+                      | "carr" -> cat = 'l'
+                      | "ilist" -> cat = 'l' && impl
+                      | "zctor" -> (not same) && (cat = 'l' || cat = 'c')
+                      | "zalloc" -> (not same) && cat = 'c'
+                      | "zasg" | "zelem" -> (not same) && asg && cat = 'l'
+                      | _ -> false)
+              | _ -> false))
+
+let all_conv_kinds : string list =
+  List.concat_map (fun src ->
+      List.concat_map (fun cat ->
+          List.concat_map (fun how ->
+              List.map (fun tgt -> Printf.sprintf "%c%c.%s.%s" src cat how tgt) [ "same"; "nat"; "wi"; "we"; "wa" ])
+            [ "ctor"; "alloc"; "asame"; "aresh"; "adiff"; "from"; "ssame"; "asit"; "asrg"; "carr"; "ilist"; "zctor"; "zalloc"; "zasg"; "zelem" ])
+        [ 'l'; 'c'; 'r'; 't'; 'k' ])
+    [ 'v'; 'q'; 'a'; 'r'; 's'; 'i'; 'e'; 'x' ]
+
+let int64_of_words lo hi = Int64.logor (Int64.shift_left (Int64.of_int32 hi) 32) (Int64.logand (Int64.of_int32 lo) 0xFFFFFFFFL)
+let f32 (f : float) : string = Int32.to_string (Int32.bits_of_float f)
+
+(* text of the converted element whose source element starts at byte base_off *)
+let conv_text (s : st) (tgt : string) (base_off : int) : string =
+  let code = if s.tk = TVal then 'L' else s.elem in
+  let off = base_off + obs_off s in
+  let words c o = value_text s c o in
+  if code = 'L' then begin
+    match words 'L' base_off with
+    | "oob" -> "oob"
+    | w ->
+        let n = int_of_string (String.sub w 1 (String.length w - 1)) in
+        (match tgt with
+         | "same" -> w
+         | "nat" -> let f = float_of_int n in Int32.to_string (lo f) ^ "." ^ Int32.to_string (hi f)
+         | _ -> let n64 = Int64.of_int n in
+                Int32.to_string (Int64.to_int32 n64) ^ "." ^ Int32.to_string (Int64.to_int32 (Int64.shift_right n64 32)))
+  end else begin
+    match words code off with
+    | "oob" -> "oob"
+    | w ->
+        if tgt <> "nat" then w
+        else
+          let ws = List.map Int32.of_string (String.split_on_char '.' w) in
+          (match code, ws with
+           | 'I', [ a ] -> "L" ^ Int32.to_string a
+           | 'D', [ l; h ] -> f32 (Int64.float_of_bits (int64_of_words l h))
+           | 'Z', [ l0; h0; l1; h1 ] -> f32 (Int64.float_of_bits (int64_of_words l0 h0)) ^ "." ^ f32 (Int64.float_of_bits (int64_of_words l1 h1))
+           | _ -> w)
+  end
+
+let run_convert (s : st) (obs : Buffer.t) (kind0 : string) : unit =
+  let kind = if kind0 = "" then "vl.ctor.nat" else kind0 in
+  if not (conv_ok s kind) then begin
+    pr obs (Printf.sprintf "X %s %d out-of-domain convert %s" s.id s.stp kind);
+    s.dead <- true
+  end else begin
+    let (src, _cat, how, tgt) = match split_kind kind with Some q -> q | None -> assert false in
+    let v = s.x.p_view in
+    (* conv = identity on byte offsets; rd k = byte offset of the object at (base pointer + k) *)
+    let esz = i s.x.p_esz and ptr = i (p_ptr s.x) in
+    let rd (k : z) : z = z (ptr + (esz * i k)) in
+    if src = 'x' then begin
+      (* not views: a C array / initializer_list of the first three elements (extension [0,3)), or a rank-0 array of
+         the first element; the expectation is computed here from the model's addresses of those elements *)
+      let f = i (fst (v_extension v)) in
+      let off k = i (p_addr_brackets s.x [ z (f + k) ]) in
+      if how = "carr" || how = "ilist" then begin
+        pr obs (Printf.sprintf "C %s %d kind=%s ext=0:3 sizes=3 nel=3" s.id s.stp kind);
+        List.iter (fun k -> pr obs (Printf.sprintf "c %s %d %d V=%s" s.id s.stp k (conv_text s tgt (off k)))) [ 0; 1; 2 ]
+      end else begin
+        pr obs (Printf.sprintf "C %s %d kind=%s ext= sizes= nel=1" s.id s.stp kind);
+        pr obs (Printf.sprintf "c %s %d 0 V=%s" s.id s.stp (conv_text s tgt (off 0)))
+      end
+    end else
+    let res =
+      match src, how with
+      | 'i', ("ctor" | "alloc" | "adiff") -> convert_iter_pair (fun b -> b) rd v.lay
+      | 'e', _ -> convert_flat (fun b -> b) rd v.lay
+      | _, ("asame" | "aresh" | "adiff" | "from" | "ssame" | "asit" | "asrg") -> convert_assign (fun b -> b) rd v.lay
+      | _ -> convert_construct (fun b -> b) rd v.lay in
+    match res with
+    | None -> pr obs (Printf.sprintf "C %s %d model-undefined(division-by-zero-in-from_linear)" s.id s.stp)
+    | Some c ->
+        let csz = il (l_sizes c.c_lay) in
+        let cex = List.map (fun (a, b) -> Printf.sprintf "%d:%d" (i a) (i b)) (l_extensions c.c_lay) in
+        let data = il c.c_data in
+        pr obs (Printf.sprintf "C %s %d kind=%s ext=%s sizes=%s nel=%d" s.id s.stp kind (String.concat "," cex) (ints csz) (List.length data));
+        List.iteri (fun k off -> if k < 64 then pr obs (Printf.sprintf "c %s %d %d V=%s" s.id s.stp k (conv_text s tgt off))) data
+  end
 
 (* ---------- interpreting one program line ---------- *)
-let pr (b : Buffer.t) (str : string) = Buffer.add_string b str; Buffer.add_char b '\n'
 
 let new_state () = {
   id = ""; stp = 0; dead = false; x = p_embed (z 16) (root_view []); elem = 'S'; tk = TNone; full = true; probes = [];
-  mem = { relem = 'S'; nel = 0; epoch = 0; over = Hashtbl.create 16 }; tptr_sliced = false }
+  mem = { relem = 'S'; nel = 0; epoch = 0; over = Hashtbl.create 16 }; tptr_sliced = false; tptr_citer = false;
+  expl_view = false; nwalk = 0 }
 
 let step (s : st) (obs : Buffer.t) (line : string) : unit =
   match words line with
   | [ "case"; c ] ->
-      s.id <- c; s.stp <- 0; s.dead <- false; s.probes <- []; s.tk <- TNone; s.full <- true;
+      s.id <- c; s.stp <- 0; s.dead <- false; s.probes <- []; s.tk <- TNone; s.full <- true; s.nwalk <- 0;
       s.mem.epoch <- 0; Hashtbl.reset s.mem.over
   | "root" :: el :: _d :: rest ->
       let rec pairs = function a :: b :: t -> (z (int_of_string a), z (int_of_string b)) :: pairs t | _ -> [] in
@@ -270,7 +561,7 @@ let step (s : st) (obs : Buffer.t) (line : string) : unit =
            pr obs (Printf.sprintf "X %s %d out-of-domain proj %s" s.id s.stp kind);
            s.dead <- true
        | Some (steps, code, tk, full) -> (
-           match run_psteps s.x steps with
+           match run_psteps ~constref:(kind_is_c kind) s.x steps with
            | None ->
                pr obs (Printf.sprintf "X %s %d out-of-domain proj %s" s.id s.stp kind);
                s.dead <- true
@@ -309,52 +600,25 @@ let step (s : st) (obs : Buffer.t) (line : string) : unit =
           if v <> pristine s.mem kw then pr obs (Printf.sprintf "M %s %d %d %s" s.id s.stp kw (Int32.to_string v)))
         keys;
       List.iter (fun idx -> pr obs (probe_line "W" s idx)) s.probes
-  | [ "convert" ] when not s.dead ->
-      let v = s.x.p_view in
-      let sizes = il (l_sizes v.lay) in
-      ignore sizes;
-      begin
-        (* conv = identity on byte offsets; rd k = byte offset of the object at (base pointer + k) *)
-        let esz = i s.x.p_esz and ptr = i (p_ptr s.x) in
-        let rd (k : z) : z = z (ptr + (esz * i k)) in
-        match convert_construct (fun b -> b) rd v.lay with
-        | None -> pr obs (Printf.sprintf "C %s %d model-undefined(division-by-zero-in-from_linear)" s.id s.stp)
-        | Some c ->
-            let src = if s.tk = TVal then 'L' else s.elem in
-            let dst = match src with 'I' -> 'L' | 'L' -> 'D' | c -> c in
-            let csz = il (l_sizes c.c_lay) in
-            let data = il c.c_data in
-            pr obs (Printf.sprintf "C %s %d to=%c sizes=%s nel=%d" s.id s.stp dst (ints csz) (List.length data));
-            List.iteri
-              (fun k off ->
-                if k < 64 then begin
-                  let off = off + obs_off s in
-                  let txt =
-                    match src with
-                    | 'I' -> (
-                        match value_text s 'I' off with "oob" -> "oob" | w -> "L" ^ w)
-                    | 'L' -> (
-                        match value_text s 'L' off with
-                        | "oob" -> "oob"
-                        | w ->
-                            let f = float_of_int (int_of_string (String.sub w 1 (String.length w - 1))) in
-                            Int32.to_string (lo f) ^ "." ^ Int32.to_string (hi f))
-                    | c -> value_text s c off in
-                  pr obs (Printf.sprintf "c %s %d %d V=%s" s.id s.stp k txt)
-                end)
-              data
-      end
+  | "convert" :: rest when not s.dead -> run_convert s obs (match rest with k :: _ -> k | [] -> "")
+  | "walk" :: toks when not s.dead -> run_walk s obs toks
   | [ "end" ] -> pr obs ("E " ^ s.id)
   | _ -> ()
 
-let run_text (text : string) (obs : Buffer.t) (tptr_sliced : bool) : unit =
+(* what the harness could be built with (compile probes of vlib/c12.py) *)
+let flag_tptr_sliced = ref false and flag_tptr_citer = ref false and flag_expl_view = ref false
+let fresh_state () =
   let s = new_state () in
-  s.tptr_sliced <- tptr_sliced;
+  s.tptr_sliced <- !flag_tptr_sliced; s.tptr_citer <- !flag_tptr_citer; s.expl_view <- !flag_expl_view;
+  s
+
+let run_text (text : string) (obs : Buffer.t) : unit =
+  let s = fresh_state () in
   List.iter (step s obs) (String.split_on_char '\n' text)
 
 (* ---------- generator ---------- *)
 (* one candidate operation for the current (model) view; may be out of domain -- caller checks *)
-let candidate (v : view) : op option =
+let candidate ?(rebased = false) (v : view) : op option =
   let r = rank v in
   let f, l = let a, b = v_extension v in (i a, i b) in
   let n = i (v_size v) in
@@ -362,8 +626,12 @@ let candidate (v : view) : op option =
   let kinds =
     [ (10, `Index); (12, `Sliced); (4, `SlicedS); (7, `Strided); (6, `Dropped); (4, `Taked);
       (12, `Rotated); (6, `Unrotated); (10, `Transposed); (5, `Reversed); (5, `Diagonal);
-      (6, `Partitioned); (4, `Chunked); (3, `Halved); (6, `Flatted); (10, `Paren) ] in
+      (6, `Partitioned); (4, `Chunked); (3, `Halved); (6, `Flatted); (10, `Paren) ]
+    @ (if rebased then [ (10, `Reindexed); (6, `Blocked); (5, `ReindexedL) ] else []) in
   match weighted kinds with
+  | `Reindexed -> Some (OReindexed (z (if chance 25 then 0 else rnd_range (-3) 3)))
+  | `Blocked -> let a, b = slice () in Some (OBlocked (z a, z b))
+  | `ReindexedL -> if r >= 2 then Some (OReindexedL (List.init (rnd_range 2 (min r 4)) (fun _ -> z (rnd_range (-3) 3)))) else None
   | `Index -> if r >= 2 && n > 0 then Some (OIndex (z (rnd_range f (l - 1)))) else None
   | `Sliced -> let a, b = slice () in Some (OSliced (z a, z b))
   | `SlicedS ->
@@ -411,14 +679,15 @@ let gen_probes (v : view) : int list list =
     let rnd_idx () = List.map (fun (f, l) -> rnd_range f (l - 1)) exts in
     corner0 :: corner1 :: List.init 6 (fun _ -> rnd_idx ())
 
-let root_sizes (maxrank : int) : (int * int) list =
+let root_sizes (maxrank : int) (rebased : bool) : (int * int) list =
   let d = min maxrank (weighted [ (3, 1); (5, 2); (4, 3); (1, 4) ]) in
   let special = chance 18 in
   List.init d (fun _ ->
       let n =
         if special && chance 45 then pick [ 0; 1 ]
         else weighted [ (2, 1); (4, 2); (5, 3); (4, 4); (2, 5); (1, 6) ] in
-      (0, n))
+      let f = if rebased && chance 70 then pick [ -3; -2; -1; 1; 2; 3 ] else 0 in
+      (f, f + n))
 
 let s_kinds = [ (8, "member_a"); (9, "member_b"); (9, "member_c"); (6, "reint_R"); (5, "reint_Q"); (5, "reint_I");
                 (9, "reintn_I 4"); (8, "reintn_D 2"); (4, "reintn_R 1"); (5, "static"); (4, "asconst"); (4, "constcast");
@@ -429,25 +698,102 @@ let c_kinds = [ (1, "member_re"); (1, "member_im") ]
 (* value category through which the projection is called: named view, const&, std::move(view), view() *)
 let categories = [ (35, ""); (20, "c_"); (25, "r_"); (20, "t_") ]
 
+
+(* ---------- generator: iterator walks and conversions on the current view ---------- *)
+let gen_walk (s : st) : (string * string list) option =
+  let x = s.x in
+  let r = rank x.p_view in
+  let size = i (v_size x.p_view) in
+  let f = i (fst (v_extension x.p_view)) in
+  let where = weighted ([ (5, `Lead); (3, `Row); (4, `Flat) ] @ (if s.tk <> TNone then [ (3, `Ptr) ] else [ (1, `Ptr) ])) in
+  let target =
+    match where with
+    | `Lead -> Some ("lead", [ "lead" ], i (v_size x.p_view), r, false)
+    | `Row ->
+        if r >= 2 && size > 0 then begin
+          let k = rnd_range f (f + size - 1) in
+          if p_dom_op (OIndex (z k)) x then
+            let y = p_index (z k) x in
+            Some ("row", [ "row"; string_of_int k ], i (v_size y.p_view), r - 1, false)
+          else None
+        end else None
+    | `Flat -> Some ("flat", [ "flat" ], i (l_num_elements x.p_view.lay), r, true)
+    | `Ptr -> let n = min 12 (ptr_room s x) in if n >= 1 then Some ("ptr", [ "ptr"; string_of_int n ], n, r, true) else None in
+  match target with
+  | None -> None
+  | Some (name, head, n, wr, flat) ->
+      let is_ptr = (name = "ptr") in
+      let const_ok = (not is_ptr) && (flat || s.tk = TNone || wr >= 2 || s.tptr_citer) in
+      let start = weighted ([ (3, "b"); (4, "e") ] @ (if const_ok then [ (1, "cb"); (2, "ce") ] else [])) in
+      let p = ref (if start = "e" || start = "ce" then n else 0) in
+      let toks = ref [] in
+      let push l = toks := List.rev_append l !toks in
+      let nsteps = if n = 0 then rnd_range 0 1 else rnd_range 3 8 in
+      for _ = 1 to nsteps do
+        let cands =
+          (if !p < n && not is_ptr then [ (3, `Inc); (1, `PInc) ] else [])
+          @ (if !p > 0 && not is_ptr then [ (4, `Dec); (2, `PDec) ] else [])
+          @ [ (3, `AddEq); (4, `SubEq); (3, `Plus); (4, `Minus) ]
+          @ (if n > 0 then [ (3, `Idx) ] else [])
+          @ (if !p >= 1 && n > 0 && not is_ptr then [ (3, `R); (2, `RPlus); (2, `RIdx) ] else []) in
+        match weighted cands with
+        | `Inc -> push [ "++" ]; incr p
+        | `PInc -> push [ "p++" ]; incr p
+        | `Dec -> push [ "--" ]; decr p
+        | `PDec -> push [ "p--" ]; decr p
+        | `AddEq -> let k = rnd_range (- !p) (n - !p) in push [ "+="; string_of_int k ]; p := !p + k
+        | `Plus -> let k = rnd_range (- !p) (n - !p) in push [ "+"; string_of_int k ]; p := !p + k
+        | `SubEq -> let k = rnd_range (!p - n) !p in push [ "-="; string_of_int k ]; p := !p - k
+        | `Minus -> let k = rnd_range (!p - n) !p in push [ "-"; string_of_int k ]; p := !p - k
+        | `Idx -> let k = rnd_range (- !p) (n - 1 - !p) in push [ "[]"; string_of_int k ]
+        | `R -> if !p <= n then push [ "r" ]
+        | `RPlus -> let k = rnd_range (!p - n) (!p - 1) in push [ "r+"; string_of_int k ]
+        | `RIdx -> let k = rnd_range (!p - n) (!p - 1) in push [ "r[]"; string_of_int k ]
+      done;
+      Some (name, head @ (start :: List.rev !toks))
+
+let gen_convert (s : st) : string option =
+  match List.filter (conv_ok s) all_conv_kinds with
+  | [] -> None
+  | l ->
+      (* favour the explicit-only targets and the array / array_ref sources, which have the most overloads *)
+      let weight k = match split_kind k with
+        | Some (src, _, _, tgt) -> (if tgt = "we" || tgt = "wa" then 3 else if tgt = "same" then 1 else 2) * (if src = 'a' || src = 'r' then 2 else if src = 'x' then 4 else 1)
+        | None -> 1 in
+      Some (weighted (List.map (fun k -> (weight k, k)) l))
+
 (* emits one case; returns the list of tags for the distribution printed in the evidence *)
-let gen_case (id : string) (maxrank : int) (maxpre : int) (maxpost : int) (tptr_sliced : bool)
+let gen_case (id : string) (maxrank : int) (maxpre : int) (maxpost : int)
     (prog : Buffer.t) (obs : Buffer.t) : string list =
-  let s = new_state () in
-  s.tptr_sliced <- tptr_sliced;
+  let s = fresh_state () in
   let tags = ref [] in
   let tag t = tags := t :: !tags in
   let emit line = pr prog line; step s obs line in
   emit ("case " ^ id);
-  let exts = root_sizes maxrank in
+  let rebased = chance 45 in
+  let exts = root_sizes maxrank rebased in
+  let rebased = List.exists (fun (f, _) -> f <> 0) exts in
   let el = if chance 27 then "Z" else "S" in
   emit (Printf.sprintf "root %s %d %s" el (List.length exts) (join " " (fun (f, l) -> Printf.sprintf "%d %d" f l) exts));
   tag ("root" ^ el);
+  tag (if rebased then "root-based" else "root-zero-based");
+  let emit_walks (k : int) =
+    for _ = 1 to k do
+      match gen_walk s with
+      | Some (name, toks) ->
+          emit ("walk " ^ String.concat " " toks);
+          tag ("walk:" ^ name);
+          tag (Printf.sprintf "walk:%s:%s" name (match s.tk with TNone -> "raw" | TVal -> "tptr-value" | TMem -> "tptr-member" | TRef -> "tptr-ref"));
+          if List.mem "--" toks || List.mem "p--" toks || List.mem "-=" toks || List.mem "-" toks || List.exists (fun t -> String.length t > 0 && t.[0] = 'r') (List.tl toks)
+          then tag "walk-backwards"
+      | None -> ()
+    done in
   let try_ops (n : int) (pre : bool) (limit_rank : int) =
     for _ = 1 to n do
       let rec try_op k =
         if k = 0 then None
         else
-          match candidate s.x.p_view with
+          match candidate ~rebased s.x.p_view with
           | Some o
             when p_dom_op o s.x && op_supported s o
                  && (let r' = rank (p_exec_op o s.x).p_view in r' >= 1 && r' <= limit_rank) -> Some o
@@ -457,7 +803,10 @@ let gen_case (id : string) (maxrank : int) (maxpre : int) (maxpost : int) (tptr_
       | Some o ->
           emit ("op " ^ op_text o);
           tag ((if pre then "pre:" else "post:") ^ op_kind o);
-          if not pre then List.iter (fun idx -> emit ("probe " ^ join " " string_of_int idx)) (gen_probes s.x.p_view)
+          if not pre then begin
+            List.iter (fun idx -> emit ("probe " ^ join " " string_of_int idx)) (gen_probes s.x.p_view);
+            if chance 35 then emit_walks 1
+          end
     done in
   (* source view: a C01-style program (padded sub-blocks, non-unit strides, sizes 0 and 1) *)
   let npre = rnd_range 0 maxpre in
@@ -475,7 +824,7 @@ let gen_case (id : string) (maxrank : int) (maxpre : int) (maxpost : int) (tptr_
           match words kind with
           | name :: args -> (
               match proj_table s name (List.map int_of_string args) with
-              | Some (steps, _, _, _) when run_psteps s.x steps <> None -> Some kind
+              | Some (steps, _, _, _) when run_psteps ~constref:(kind_is_c name) s.x steps <> None -> Some kind
               | _ -> try_kind (k - 1))
           | [] -> None in
       match try_kind 40 with
@@ -492,6 +841,9 @@ let gen_case (id : string) (maxrank : int) (maxpre : int) (maxpost : int) (tptr_
           (* (projection kind x value category x rank class of the SOURCE view) table of the evidence *)
           tag (Printf.sprintf "vc:%s:%s:%s" bare cat (if src_rank = 1 then "D1" else "Dn"));
           List.iter (fun idx -> emit ("probe " ^ join " " string_of_int idx)) (gen_probes s.x.p_view);
+          if rebased then tag ("proj-on-based:" ^ bare);
+          if List.exists (fun (f, _) -> i f <> 0) (l_extensions s.x.p_view.lay) then tag ("proj-view-has-nonzero-base:" ^ bare);
+          emit_walks (if chance 60 then 1 else 0);
           let npost = rnd_range 0 maxpost in
           tag (Printf.sprintf "npost%d" npost);
           try_ops npost false maxd
@@ -511,11 +863,24 @@ let gen_case (id : string) (maxrank : int) (maxpre : int) (maxpost : int) (tptr_
       List.iter (fun idx -> emit ("probe " ^ join " " string_of_int idx)) (gen_probes s.x.p_view)
     end;
     if (s.elem = 'I' || s.elem = 'D') && s.tk <> TVal && chance 40 then begin emit "write"; tag "write" end;
-    if chance 40 then begin
-      emit "convert";
-      (* outer size <> 0 with a zero inner extent: the branch of the flat iterator's constructor that used to divide by 0 *)
-      let inner0 = match sizes with n :: rest -> n <> 0 && List.exists (fun m -> m = 0) rest | [] -> false in
-      tag (if inner0 then "convert-outer-nonzero-inner-zero" else "convert")
+    emit_walks (weighted [ (25, 0); (45, 1); (30, 2) ]);
+    if chance 55 then begin
+      for _ = 1 to rnd_range 1 3 do
+        match gen_convert s with
+        | None -> ()
+        | Some kind ->
+            emit ("convert " ^ kind);
+            (* outer size <> 0 with a zero inner extent: the branch of the flat iterator's constructor that used to divide by 0 *)
+            let inner0 = match sizes with n :: rest -> n <> 0 && List.exists (fun m -> m = 0) rest | [] -> false in
+            tag (if inner0 then "convert-outer-nonzero-inner-zero" else "convert");
+            (match split_kind kind with
+             | Some (src, cat, how, tgt) ->
+                 tag (Printf.sprintf "conv-src:%c%c" src cat); tag ("conv-how:" ^ how); tag ("conv-tgt:" ^ tgt);
+                 let nzb = List.exists (fun (f, _) -> i f <> 0) (l_extensions s.x.p_view.lay) in
+                 tag (Printf.sprintf "conv:%s:%c:%s" kind (if s.tk = TVal then 'L' else s.elem) (if nzb then "b" else "z"));
+                 if nzb then tag ("conv-nonzero-base-tgt:" ^ tgt)
+             | None -> ())
+      done
     end
   end;
   emit "end";
@@ -523,7 +888,7 @@ let gen_case (id : string) (maxrank : int) (maxpre : int) (maxpost : int) (tptr_
 
 (* ---------- entry point ---------- *)
 let usage () =
-  prerr_endline "usage: driver_c12 <gen|run> --seed S --count N --prog FILE --obs FILE [--maxrank R] [--maxpre N] [--maxpost N] [--tptr-sliced 0|1] [--prefix p]";
+  prerr_endline "usage: driver_c12 <gen|run> --seed S --count N --prog FILE --obs FILE [--maxrank R] [--maxpre N] [--maxpost N] [--tptr-sliced 0|1] [--tptr-citer 0|1] [--expl-view 0|1] [--prefix p]";
   exit 2
 
 let () =
@@ -534,7 +899,9 @@ let () =
   let geti k d = int_of_string (get k (string_of_int d) args) in
   let sd = geti "--seed" 1 and count = geti "--count" 100 in
   C12_zu.seed sd;
-  let tptr_sliced = geti "--tptr-sliced" 0 = 1 in
+  flag_tptr_sliced := (geti "--tptr-sliced" 0 = 1);
+  flag_tptr_citer := (geti "--tptr-citer" 0 = 1);
+  flag_expl_view := (geti "--expl-view" 0 = 1);
   let prog = Buffer.create 65536 and obs = Buffer.create 65536 in
   let write f b = let oc = open_out f in Buffer.output_buffer oc b; close_out oc in
   let hist : (string, int) Hashtbl.t = Hashtbl.create 64 in
@@ -544,7 +911,7 @@ let () =
        let prefix = get "--prefix" "p" args in
        for k = 1 to count do
          let tags =
-           gen_case (Printf.sprintf "%s%d" prefix k) (geti "--maxrank" 4) (geti "--maxpre" 4) (geti "--maxpost" 3) tptr_sliced prog obs in
+           gen_case (Printf.sprintf "%s%d" prefix k) (geti "--maxrank" 4) (geti "--maxpre" 4) (geti "--maxpost" 3) prog obs in
          List.iter bump tags
        done;
        write (get "--prog" "prog.txt" args) prog
@@ -553,7 +920,7 @@ let () =
        let n = in_channel_length ic in
        let text = really_input_string ic n in
        close_in ic;
-       run_text text obs tptr_sliced
+       run_text text obs
    | _ -> usage ());
   write (get "--obs" "obs.txt" args) obs;
   let items = List.sort compare (Hashtbl.fold (fun k v acc -> (k, v) :: acc) hist []) in
